@@ -1,0 +1,51 @@
+//go:build verif
+// +build verif
+
+package cursor
+
+import "time"
+
+// VC03EvictIdle expires every idle (released) cursor of the provider and runs the provider's own
+// time sweep (sweepByTime) under its lock. It returns the number of cursors still cached.
+func VC03EvictIdle(pr Provider) int {
+	p, ok := pr.(*provider)
+	if !ok {
+		return -1
+	}
+	p.lock.Lock()
+	defer p.lock.Unlock()
+	past := time.Now().Add(-time.Hour)
+	for _, e := range p.curs {
+		ch := e.Val.(*curHldr)
+		if !ch.busy {
+			ch.expTime = past
+		}
+	}
+	p.sweepByTime()
+	return len(p.curs)
+}
+
+// VC03Cached tells whether the provider holds a cursor with the id
+func VC03Cached(pr Provider, id uint64) bool {
+	p, ok := pr.(*provider)
+	if !ok {
+		return false
+	}
+	p.lock.Lock()
+	defer p.lock.Unlock()
+	_, ok = p.curs[id]
+	return ok
+}
+
+// VC03SetTimeouts sets the idle and busy time-outs of the provider (so that the background sweeper
+// does not interfere with a slow run)
+func VC03SetTimeouts(pr Provider, idle, busy time.Duration) {
+	p, ok := pr.(*provider)
+	if !ok {
+		return
+	}
+	p.lock.Lock()
+	p.idleTo = idle
+	p.busyTo = busy
+	p.lock.Unlock()
+}
